@@ -62,15 +62,17 @@ def cases(ctx):
         g = PlanarCMWPMDecoder.StepGrid(code)
         meta = {'kind': 'stepgrid', 'code': ['planar', R, C],
                 'decoder': ['PlanarCMWPM', {'factor': factor, 'box_shape': shape}], 'matched': pairs_w(matched)}
+        as_set = rng.random() < 0.5
         try:
-            g.set_background(frozenset(matched) if rng.random() < 0.5 else list(matched), factor=factor, initial=initial,
+            g.set_background(frozenset(matched) if as_set else list(matched), factor=factor, initial=initial,
                              box_shape=shape)
             arr = np.array(g._grid)
             impl = '|'.join(','.join(fr(x) for x in row) for row in arr) if arr.ndim == 2 else core_describe(arr)
         except Exception as ex:   # noqa: BLE001
             impl = 'raise:' + type(ex).__name__
-        # a set iterates in its own order and drops duplicates: the model gets the pairs the real call iterated over
-        eff = list(dict.fromkeys(matched))
+        # a set iterates in its own order and drops duplicates, a list keeps them: the model gets the pairs the real call
+        # iterated over (their order is irrelevant: `background_order_irrelevant`)
+        eff = list(dict.fromkeys(matched)) if as_set else list(matched)
         pre = 'stepgrid {} {} {} {} {} {} {}'.format('{}', R, C, fr(initial), fr(factor), shape, pairs_w(eff))
         ctx.case(pre.format('grid'), impl, nontrivial=bool(matched), meta=meta)
         ctx.count('stepgrid.shape', shape); ctx.count('stepgrid.pairs', len(eff))
